@@ -21,7 +21,10 @@ import (
 type crashDB struct {
 	database.DB
 	commits int
-	crashAt int // -1: never
+	crashAt int          // -1: never
+	rec     *[]*commitEv // when set, every durable commit is recorded
+	f       *Factory
+	pending func() []int // blocks being connected by the running call
 }
 
 type crashSentinel struct{}
@@ -30,9 +33,22 @@ func (c *crashDB) Update(fn func(tx database.Tx) error) error {
 	if c.crashAt >= 0 && c.commits >= c.crashAt {
 		panic(crashSentinel{})
 	}
-	err := c.DB.Update(fn)
+	if c.rec == nil {
+		err := c.DB.Update(fn)
+		if err == nil {
+			c.commits++
+		}
+		return err
+	}
+	ev := newEv()
+	err := c.DB.Update(func(tx database.Tx) error { return fn(&recTx{Tx: tx, f: c.f, ev: ev}) })
 	if err == nil {
 		c.commits++
+		ev.UtxoAt = c.f.utxoAt(c.DB)
+		if ev.Best >= 0 {
+			ev.Connecting = []int{ev.Best}
+		}
+		*c.rec = append(*c.rec, ev)
 	}
 	return err
 }
@@ -185,7 +201,7 @@ func (n *crashNode) asNode() *Node { return &Node{F: n.f, Chain: n.chain, DB: n.
 
 // crashWorkload enumerates every crash point of one workload (a Chain.tla
 // path) and, in nested mode, every crash point of each recovery.
-func crashWorkload(ctx *vrun.Ctx, f *Factory, path []tlc.Step, cache uint64, nested bool) error {
+func crashWorkload(ctx *vrun.Ctx, f *Factory, path []tlc.Step, cache uint64, nested bool, coll *traceCollector) error {
 	var ops []crashOp
 	for _, st := range path {
 		last := st.To.State["last"]
@@ -202,6 +218,11 @@ func crashWorkload(ctx *vrun.Ctx, f *Factory, path []tlc.Step, cache uint64, nes
 	base, err := newCrashNode(f, cache, -1)
 	if err != nil {
 		return err
+	}
+	var recorded []*commitEv
+	if coll != nil {
+		base.wrap.rec = &recorded
+		base.wrap.f = f
 	}
 	commitsAfter := make([]int, len(ops))
 	activeAfter := make([]map[int]bool, len(ops))
@@ -224,6 +245,9 @@ func crashWorkload(ctx *vrun.Ctx, f *Factory, path []tlc.Step, cache uint64, nes
 		ackAfter[i] = copySet(ack)
 	}
 	total := base.wrap.commits
+	if coll != nil {
+		coll.add(f.Sc, recorded)
+	}
 	finalTip := f.ID(&base.chain.BestSnapshot().Hash)
 	base.close()
 	if !contains(final["exp"].F("tips"), finalTip) {
